@@ -90,7 +90,7 @@ class DiagCodedType:
             # A_ASCIISTRING objects are encoded using ISO-8859-1,
             # i.e., every character occupies exactly one byte
             # TODO: Handle different encodings
-            byte_length = len(bytes(internal_value, "iso-8859-1"))
+            byte_length = len(bytes(internal_value, "iso-8859-1", errors="replace"))
         elif self.base_data_type == DataType.A_UTF8STRING:
             if not isinstance(internal_value, str):
                 odxraise()
